@@ -911,9 +911,10 @@ def monitor(run):
             unf = [sid for sid, st in send_step.items() if st <= i and sid not in fired_at]
             why = None
             if stopped_at is not None and i >= stopped_at:
-                late = [sid for sid in unf if send_step[sid] <= stopped_at]
-                if late:
-                    why = "stop() returned, nothing pending, yet sends %r accepted before it never fired" % late
+                # after stop() nothing may be left waiting: sends made before it were failed by it, sends made
+                # after it are refused at once (producer.py:241-243)
+                if unf:
+                    why = "stop() returned, nothing pending, yet sends %r never fired" % unf
             elif unf:
                 cnt = sum(send_cnt[s] for s in unf)
                 byt = sum(send_bytes[s] for s in unf)
